@@ -17,7 +17,10 @@ free = list(range(NW))
 def sh(cmd, **kw):
     return subprocess.run(cmd, shell=True, capture_output=True, text=True, env=ENV, **kw)
 
+BIN = "/verif/bin/govc.matrix"
+
 def setup():
+    shutil.copy("/verif/bin/govc", BIN)  # a private copy: the engine may be rebuilt while the matrix runs
     for w in range(NW):
         wt = f"/tmp/mwt{w}"
         sh(f"git -C /repo worktree remove --force {wt}; rm -rf {wt}; git -C /repo worktree add -q --detach {wt} HEAD")
@@ -39,7 +42,7 @@ def run(mid):
             return res
         for p in props:
             env = dict(ENV, GOVC_REPO=wt, GOVC_OUT=out)
-            c = subprocess.run(["/verif/bin/govc", "check", "-prop", p, "-no-evidence"], capture_output=True, text=True, env=env)
+            c = subprocess.run([BIN, "check", "-prop", p, "-no-evidence"], capture_output=True, text=True, env=env)
             viol = [ln.split("obligation=")[1].split(" status=")[0] for ln in c.stdout.splitlines() if ln.startswith("VIOLATION") and "obligation=" in ln]
             conf = [("no-failing-input-found" not in ln) for ln in c.stdout.splitlines() if ln.startswith("VIOLATION")]
             res["checks"][p] = {"rc": c.returncode, "violations": viol[:4], "replayed": any(conf)}
